@@ -56,6 +56,16 @@ Within(c, N, m) ==
      \/ /\ 3 * d <= ((2 * L * (3 * E + d)) \div d) + 1
         /\ 3 * m * d * d <= 2 * L * (3 * E * (m - 1) + m * d)
 
+\* the same bound when N / m need not be an integer: the deviation is measured from the nearer of the two integers around
+\* the expectation (so it is under-estimated) and the right-hand side uses the larger expectation and d + 1 (so it is
+\* over-estimated) - the cell is rejected only if the exact inequality certainly fails
+WithinQ(c, N, m) ==
+  LET Elo == N \div m  Ehi == (N + m - 1) \div m
+      d == IF c > Ehi THEN c - Ehi ELSE IF c < Elo THEN Elo - c ELSE 0
+  IN \/ d = 0
+     \/ /\ 3 * d <= ((2 * L * (3 * Ehi + d + 1)) \div d) + 1
+        /\ 3 * m * d * d <= 2 * L * (3 * Ehi * (m - 1) + m * (d + 1))
+
 SumSeq(s) == LET RECURSIVE S(_) S(k) == IF k = 0 THEN 0 ELSE s[k] + S(k - 1) IN S(Len(s))
 
 PermTableOK(t) ==
@@ -78,6 +88,17 @@ PosTableOK(t) ==
 PairTableOK(t) ==
   LET n == t.n  C == t.counts IN      \* C[i][j] = number of runs in which item i was processed before item j
   /\ \A i, j \in 1..n : i < j => (C[i][j] + C[j][i] = t.N /\ Within(C[i][j], t.N, 2))
+  \* a uniformly distributed permutation of n >= 2 items is even with probability exactly 1/2 (the alternating group has
+  \* index 2), whatever algorithm drew it: a statistic of the permutation as a whole, not of its one- or two-item marginals
+  /\ ("even" \in DOMAIN t /\ n >= 2) => Within(t.even, t.N, 2)
+
+\* every digit of three standard bijective codes of the permutation (Fisher-Yates swap indices running down, running up,
+\* Lehmer code) is uniform on its range 0..i under a uniformly distributed permutation, whatever algorithm drew it
+CodeTableOK(t) ==
+  LET n == t.n  H == t.counts IN      \* H[code][digit index i + 1][value + 1], i = 0..n-1
+  /\ Len(H) = 3
+  /\ \A k \in 1..3 : Len(H[k]) = n /\ \A i \in 2..n : Len(H[k][i]) = i /\ SumSeq(H[k][i]) = t.N
+  /\ \A k \in 1..3 : \A i \in 2..n : \A v \in 1..i : WithinQ(H[k][i][v], t.N, i)
 
 \* ---- (iii) determinism in the generator state only --------------------------------
 DetOK(t) ==
@@ -96,6 +117,7 @@ TableOK(t) ==
     [] t.kind = "det2" -> Det2OK(t)
     [] t.kind = "pos"  -> PosTableOK(t)
     [] t.kind = "pair" -> PairTableOK(t)
+    [] t.kind = "code" -> CodeTableOK(t)
     [] t.kind = "det"  -> DetOK(t)
 
 BadTables == {i \in 1..Len(Tables) : ~TableOK(Tables[i])}
